@@ -67,6 +67,7 @@ type Node struct {
 	Digest  [32]byte
 	Calls   uint64
 	Trace   func(string) // optional event log sink
+	Order   uint64       // map iteration order of this instance (instrumented builds)
 }
 
 func tmConfig(c NodeCfg) *config.Config {
@@ -135,6 +136,7 @@ func topRepoFrame(stack string) string {
 }
 
 func (n *Node) call(name string, f func()) (cerr *CallErr) {
+	setOrder(n.Order)
 	defer func() {
 		if r := recover(); r != nil {
 			n.Dead = true
